@@ -164,6 +164,9 @@ def cg(A: LinearOperator, B: torch.Tensor,
                 print("%4d: |dy|=%.3e" % (k, resid_norm))
 
         if torch.all(resid_norm < stop_matrix):
+            # every column passed its own test at this iterate (an earlier iterate
+            # with a smaller largest residual does not necessarily)
+            best_xk = xk_1
             converge = True
             break
 
@@ -308,6 +311,9 @@ def bicgstab(A: LinearOperator, B: torch.Tensor,
 
         # check for the stopping conditions
         if torch.all(resid_norm < stop_matrix):
+            # every column passed its own test at this iterate (an earlier iterate
+            # with a smaller largest residual does not necessarily)
+            best_xk = xk
             converge = True
             break
 
@@ -422,6 +428,8 @@ def gmres(A: LinearOperator, B: torch.Tensor,
                 best_res = res
 
             if torch.all(resid_norm < stop_matrix):
+                # every column passed its own test at this iterate
+                best_res = res
                 converge = True
                 break
 
